@@ -33,4 +33,7 @@ void h_Hull(void) {
   Impl_Hull(&impl, pts, &ctx);
   POST();
 }
+#ifdef JOB_LevelSet_cancel
+void h_LevelSet(void) { HARNESS_END; }
+#endif
 #endif
